@@ -633,7 +633,11 @@ static void DecodeEmulOneToTwo(Word Code) {
         else if ((DestParts.Mode == eModeRegDisp) && (DestParts.Part == RegPC)) {
             LongWord NewDist = DestParts.Val - 2;
 
-            if ((NewDist & 0x8000) != (DestParts.Val & 0x8000)) {
+            /* within 64K, PC-relative addresses wrap around (see DecodeAdr()); only the
+               negative 20-bit distance of an instruction located above 64K may leave
+               the 16-bit range: */
+
+            if ((DestParts.Val > 0xffff) && ((NewDist & 0xfffff) < 0xf8000)) {
                 WrError(ErrNum_DistTooBig);
                 return;
             }
